@@ -87,7 +87,7 @@ pub fn run(ctx: &Ctx) -> i32 {
     let (st, mut acc) = explore::explore(&roots, &ops_, depth, &on_state, &|_, _, _, _, _| {}, None);
     // faults on compressed elements
     let fam: Vec<M> = families::marked(if th { 5 } else { 4 });
-    let f = fam.par_iter().enumerate().map(|(fi, m)| {
+    let f = fam.par_iter().enumerate().with_max_len(1).map(|(fi, m)| {
         let mut acc = Acc::new();
         let e = bind::build(m, 0);
         let c = e.compress().unwrap();
